@@ -292,18 +292,27 @@ impl<'a> Task<'a> {
                                 );
 
                                 trace!("send result: {:?}", result);
-                                tx.send(
-                                    result
-                                        .map(|v| serde_json::to_string(&v))?
-                                        .map_err(|e| SerdeError::new(&e)),
-                                )
-                                .unwrap_or_else(|e| {
+                                // the child must never return into the caller's code (it would go on
+                                // running the rest of the script): a failure is sent like a result
+                                let message = match result {
+                                    Ok(v) => {
+                                        serde_json::to_string(&v).map_err(|e| SerdeError::new(&e))
+                                    }
+                                    Err(e) => Err(SerdeError::new(&e)),
+                                };
+                                tx.send(message).unwrap_or_else(|e| {
                                     error!("child failed to send result: {}", e);
                                     exit(1)
                                 });
                                 exit(0);
                             }
                             Ok(ForkResult::Parent { child, .. }) => {
+                                // without its own copy of the sender the parent sees the channel close
+                                // when the child dies; and it reads BEFORE waiting, because a child
+                                // with a result larger than the socket buffer blocks in `send`
+                                drop(tx);
+                                trace!("receive result");
+                                let received = rx.recv();
                                 match waitpid(child, None) {
                                     Ok(WaitStatus::Exited(_, 0)) => Ok(()),
                                     Ok(WaitStatus::Exited(_, exit_code)) => Err(Error::new(
@@ -316,8 +325,7 @@ impl<'a> Task<'a> {
                                         format!("child {child} unknown status"),
                                     )),
                                 }?;
-                                trace!("receive result");
-                                rx.recv()
+                                received
                                     .unwrap_or_else(|e| {
                                         Err(SerdeError::new(&Error::new(
                                             ErrorKind::Other,
